@@ -213,7 +213,11 @@ def unit_self_reference(eng):
     """definitions that depend on themselves must end in an error (findings D15: hang, D16: DeferredCycle escapes)"""
     import subprocess
     import json
-    cases = [("x = x\n.word x\n", "D15"), ("x = y\ny = x\n.word x\n", "D15"), ("x = x + 1\n.word x\n", "D16"), ("x = y + 1\ny = x + 1\n.word x\n", "D16"), ("x = x / 2\n.word x\n", "D16"), ("x = <x & 1> + 1\n.word x\n", "D16")]
+    cases = [("x = x\n.word x\n", "D15"), ("x = y\ny = x\n.word x\n", "D15"), ("x = x + 1\n.word x\n", "D16"), ("x = y + 1\ny = x + 1\n.word x\n", "D16"), ("x = x / 2\n.word x\n", "D16"), ("x = <x & 1> + 1\n.word x\n", "D16"),
+             # not used by any statement; used by a branch, a relative operand, an inline field, a string; sizes and counts that depend on a later label; the location counter
+             ("x = x\n", "D15"), ("a = b\nb = a\n", "D15"), ("x = x / 2\n", "D16"), ("br x\nx = x\n", "D16"), ("jmp x\nx = x + 1\n", "D16"), ("emt x\nx = x\n", "D16"), ("mov x(r1), r0\nx = -x\n", "D16"),
+             (".blkb x\nx:\n", "D16"), (".repeat x { .word 1 }\nx: nop\n", "D16"), (". = . % 4\nnop\n", "D16"), (". = . +\n 4\n", "D16"), (".align x\nx: nop\n", "D16"), ("x = e - s\ns: .blkb x\ne:\n", "D16"),
+             (".link 1000\n. = . + x\nx = x\n", "D16"), (".ascii x\nx = \"a\" x\n", "D16")]
     code = r'''
 import sys, json, signal
 sys.path.insert(0, %r)
